@@ -34,13 +34,13 @@ func init() {
 }
 
 type callsCase struct {
-	Prop   string `json:"prop"`
-	Kind   string `json:"kind"`
-	Sc     string `json:"sc"`    // scenario
-	Limit  int    `json:"limit"` // C13
-	Pool   bool   `json:"pool"`
-	Seed   int64  `json:"seed"`
-	Thorough bool `json:"thorough"`
+	Prop     string `json:"prop"`
+	Kind     string `json:"kind"`
+	Sc       string `json:"sc"`    // scenario
+	Limit    int    `json:"limit"` // C13
+	Pool     bool   `json:"pool"`
+	Seed     int64  `json:"seed"`
+	Thorough bool   `json:"thorough"`
 }
 
 func digest(b []byte) string {
@@ -678,15 +678,15 @@ func c11ClientFaults(t *tr.Writer, c callsCase) {
 		}
 	}
 	faults := map[string]func(r peers.Request){
-		"short-message":      func(r peers.Request) { p.Raw(r.Conn, []byte{1, 2}) },
-		"empty-message":      func(r peers.Request) { p.Raw(r.Conn, []byte{}) },
-		"garbage-header":     func(r peers.Request) { p.Raw(r.Conn, []byte{9, 9, 9, 9, 9, 9, 9, 9, 9, 9, 9, 9, 9}) },
-		"malformed-body":     func(r peers.Request) { p.Respond(r.Conn, r.Index, []byte("Ra99999999999{")) },
-		"wrong-type-body":    func(r peers.Request) { p.Respond(r.Conn, r.Index, []byte("Rs3\"abc\"z")) },
-		"error-frame":        func(r peers.Request) { p.RespondError(r.Conn, r.Index, []byte("boom")) },
-		"unknown-tag-body":   func(r peers.Request) { p.Respond(r.Conn, r.Index, []byte("Xyz")) },
-		"empty-body":         func(r peers.Request) { p.Respond(r.Conn, r.Index, []byte{}) },
-		"negative-count":     func(r peers.Request) { p.Respond(r.Conn, r.Index, []byte("Ra-1{}z")) },
+		"short-message":    func(r peers.Request) { p.Raw(r.Conn, []byte{1, 2}) },
+		"empty-message":    func(r peers.Request) { p.Raw(r.Conn, []byte{}) },
+		"garbage-header":   func(r peers.Request) { p.Raw(r.Conn, []byte{9, 9, 9, 9, 9, 9, 9, 9, 9, 9, 9, 9, 9}) },
+		"malformed-body":   func(r peers.Request) { p.Respond(r.Conn, r.Index, []byte("Ra99999999999{")) },
+		"wrong-type-body":  func(r peers.Request) { p.Respond(r.Conn, r.Index, []byte("Rs3\"abc\"z")) },
+		"error-frame":      func(r peers.Request) { p.RespondError(r.Conn, r.Index, []byte("boom")) },
+		"unknown-tag-body": func(r peers.Request) { p.Respond(r.Conn, r.Index, []byte("Xyz")) },
+		"empty-body":       func(r peers.Request) { p.Respond(r.Conn, r.Index, []byte{}) },
+		"negative-count":   func(r peers.Request) { p.Respond(r.Conn, r.Index, []byte("Ra-1{}z")) },
 	}
 	names := make([]string, 0, len(faults))
 	for k := range faults {
